@@ -17,7 +17,7 @@ from . import absmodel, core, tlc
 
 FEATURES = ["docstring", "future_import", "comments", "decorators", "nested_defs", "partial_annotations", "typing_import",
             "import_module_runtime", "import_alias", "import_in_function", "existing_tc_block", "star_import", "import_dotted",
-            "class_level_code", "module_level_code"]
+            "class_level_code", "module_level_code", "respelled_annotations"]
 
 
 def gen_source(feat):
@@ -62,7 +62,9 @@ def gen_source(feat):
     if "nested_defs" in f:
         L += ["    def inner(q):", "        return q", "    x = inner(x)"]
     L += ["    return x", ""]
-    if "partial_annotations" in f:
+    if "partial_annotations" in f and "respelled_annotations" in f:
+        L += ["def f2(x: 'int', y, z: int = None) -> \"int\":", "    return x", ""]
+    elif "partial_annotations" in f:
         L += ["def f2(x: int, y, z: str = 's') -> int:", "    return x", ""]
     else:
         L += ["def f2(x, y, z='s'):", "    return x", ""]
@@ -248,7 +250,7 @@ def positions(src_tree, stub_tree, res_tree):
     for k in sorted(set(s) | set(r)):
         # the source's own names keep their meaning in the result (its imports are still there: ExistingUnmoved)
         out.append({"f": k[0], "pos": k[1], "src": qualify(s.get(k, ""), maps[0]), "stub": qualify(st.get(k, ""), maps[1]),
-                    "res": qualify(r.get(k, "<missing>"), maps[2])})
+                    "res": qualify(r.get(k, "<missing>"), maps[2]), "src_raw": s.get(k, ""), "res_raw": r.get(k, "<missing>")})
     return out
 
 
@@ -312,7 +314,7 @@ def run_case(case):
         mod = importlib.import_module(name)
         k = case["k"]
         vals = {"circle": zshapes.Circle(), "square": zshapes.Square(), "int": 1, "str": "s", "none": None,
-                "list": [zshapes.Circle()], "dict": {"a": 1, "b": "x"}, "deep": __import__("zsh.deep").deep.Deep()}
+                "list": [zshapes.Circle()], "dict": {"a": 1, "b": "x"}, "deep": __import__("zsh.deep").deep.Deep(), "tm": __import__("typing_zm").TM()}
         T = lambda v: get_type(vals[v], k)  # noqa: E731
         traces = []
         funcs = {"f1": (getattr(mod.f1, "__wrapped__", mod.f1), ["a", "b"]), "f2": (mod.f2, ["x", "y", "z"]),
@@ -326,8 +328,11 @@ def run_case(case):
         stub = stubs[name].render() if name in stubs else ""
         rec["stub"] = stub[:1500]
         try:
-            res = apply_stub_using_libcst(stub, src, case["overwrite"], case["confine"])
-            res2 = apply_stub_using_libcst(stub, res, case["overwrite"], case["confine"])
+            if case.get("via_cli"):
+                res, res2 = apply_via_cli(w, name, path, traces, case)
+            else:
+                res = apply_stub_using_libcst(stub, src, case["overwrite"], case["confine"])
+                res2 = apply_stub_using_libcst(stub, res, case["overwrite"], case["confine"])
         except HandlerError as e:
             rec["failed"], rec["err"] = True, str(e)[:300]
             return rec
@@ -371,6 +376,64 @@ def run_case(case):
             pass
 
 
+CFG_SRC = '''import os
+from monkeytype.config import DefaultConfig
+
+
+class C(DefaultConfig):
+    def max_typed_dict_size(self):
+        return int(os.environ.get("MTA_K", "0"))
+
+    def type_rewriter(self):
+        from monkeytype.typing import NoOpRewriter
+        return NoOpRewriter()
+
+
+CONFIG = C()
+'''
+
+
+def apply_via_cli(w, name, path, traces, case):
+    """The `apply` command itself: traces in a real store, the module file rewritten in place (twice)."""
+    from monkeytype import cli
+    from monkeytype.cli import HandlerError
+    from monkeytype.db.sqlite import SQLiteStore
+    cfgp = os.path.join(w["dir"], "mta_config.py")
+    if not os.path.exists(cfgp):
+        with open(cfgp, "w") as fh:
+            fh.write(CFG_SRC)
+        importlib.invalidate_caches()
+    db = os.path.join(w["dir"], name + ".db")
+    os.environ.update(MT_DB_PATH=db, MTA_K=str(case["k"]))
+    st = SQLiteStore.make_store(db)
+    st.add(traces)
+    st.conn.close()
+    argv = ["-c", "mta_config:CONFIG", "apply"] + (["--ignore-existing-annotations"] if case["overwrite"] else []) + \
+           (["--pep_563"] if case["confine"] else []) + [name]
+    outs = []
+    try:
+        for attempt in range(2):
+            out, err = io.StringIO(), io.StringIO()
+            try:
+                rc = cli.main(argv, out, err)
+            except Exception as e:           # the command itself died
+                if attempt == 0:
+                    raise HandlerError("apply raised %s: %s" % (type(e).__name__, e))
+                outs.append("<second apply raised %s: %s>" % (type(e).__name__, e))   # "a second time changes nothing" is false
+                break
+            if rc != 0:
+                raise HandlerError("apply exited %s: %s" % (rc, err.getvalue()[-200:]))
+            with open(path) as fh:
+                outs.append(fh.read())
+            sys.modules.pop(name, None)
+    finally:
+        try:
+            os.unlink(db)
+        except OSError:
+            pass
+    return outs[0], outs[1]
+
+
 def _run_chunk(chunk):
     _setup()
     import logging
@@ -387,7 +450,8 @@ def run_cases(cases, procs=16):
     return out
 
 
-TYPE_SELS = [["int"], ["circle", "int"], ["circle", "square"], ["list", "none"], ["dict"], ["str", "circle", "none"], ["deep"]]
+TYPE_SELS = [["int"], ["circle", "int"], ["circle", "square"], ["list", "none"], ["dict"], ["str", "circle", "none"], ["deep"],
+             ["tm", "int"]]
 
 
 def gen_cases(pid, tier, seed):
@@ -403,7 +467,8 @@ def gen_cases(pid, tier, seed):
                 for _ in range(n_each):
                     traced = rng.sample(fnames, rng.randint(1, len(fnames)))
                     cases.append({"features": sorted(fs), "traced": traced, "types": {f: rng.choice(TYPE_SELS) for f in traced},
-                                  "overwrite": rng.random() < 0.4, "confine": confine, "k": rng.choice([0, 3])})
+                                  "overwrite": rng.random() < 0.4, "confine": confine, "k": rng.choice([0, 3]),
+                                  "via_cli": rng.random() < 0.5})
         plan.append({"family": label, "cases": len(cases) - n0})
     confs = (False, True) if pid == "C15" else (True,)
     add("every single feature", [[f] for f in FEATURES] + [[]], confs, 3 if q else 12)
